@@ -4,8 +4,10 @@ import os, re, json, subprocess
 ROOT = os.path.dirname(os.path.dirname(os.path.abspath(__file__)))
 
 # translators: regenerate Coq fact tables from /repo's sources on every run
+# (name, command, properties whose obligations depend on the output; None = all)
 TRANSLATORS = [
-    ('tables', './build/gentables /repo/parse.go work/Tables.v.new && (cmp -s work/Tables.v.new coq/Generated/Tables.v || cp work/Tables.v.new coq/Generated/Tables.v)'),
+    ('tables', './build/gentables /repo/parse.go work/Tables.v.new && (cmp -s work/Tables.v.new coq/Generated/Tables.v || cp work/Tables.v.new coq/Generated/Tables.v)', None),
+    ('effects', './build/geneffects /repo work/Effects.v.new work/Effects_ok.v.new > work/geneffects.log && (cmp -s work/Effects.v.new coq/Generated/Effects.v || cp work/Effects.v.new coq/Generated/Effects.v)', ['C05', 'C04']),
 ]
 
 # axioms of the standard library that a theorem may depend on (none is needed so far)
